@@ -13,6 +13,7 @@
  * See the License for the specific language governing permissions and
  * limitations under the License.
  */
+#include <unifex/detail/verif_hooks.hpp>
 #include <unifex/static_thread_pool.hpp>
 
 namespace unifex {
@@ -73,6 +74,7 @@ void context::run(std::uint32_t index) noexcept {
     }
 
     task->execute(task);
+    UNIFEX_VERIF_POINT(412);
   }
 }
 
@@ -99,6 +101,7 @@ void context::enqueue(task_base* task) noexcept {
   }
 
   // Otherwise, do a blocking enqueue on the selected thread.
+  UNIFEX_VERIF_POINT(411);
   threadStates_[startIndex].push(task);
 }
 
